@@ -20,10 +20,9 @@ else: built_count = self.build(count, context, gate_context)     # build(1) == 1
 so `BlockStatement(statements, subcircuit=True, iterations=1)` results in the three cases, and the
 statements `args[1:]` are built the same way.  `Identifier` objects (versus `str`) occur only in
 `usepulses` statements, which are out of scope here.
-The builder model (`Model/Builder.lean`) was not available when this file was written, so
-`build (norm e) = build e` is NOT proved in Lean: it rests on the code reading above and on the direct
-oracle `count_variants` of `harness/agents/qsyn_diff.py` (real `build` on the three spellings gives
-`==` circuits).
+`build (norm e) = build e` on everything the front ends produce, and hence "equal circuits", is proved
+against the builder model in `Props/C17Build.lean` (`C17_build_norm`, `C17_build_front_ends`); the direct
+oracle `count_variants` of `harness/agents/qsyn_diff.py` checks the same on the real `build`.
 
 ## What is and is not covered
 * A `Prog` refers to lets / registers by creation index; anonymous ones get the `Namer`'s names in all three
